@@ -3,7 +3,7 @@
    model Arena.lf_store / alloc_spec / arena_new / set_limit for ALL inputs, and on the stated domain every
    collected obligation holds.  One generic tactic, [gen_lf_tac]. *)
 From Lasso Require Import Base Arena ArenaProofs.
-From LassoGen Require Import GenPrelude GenIR GenIRLf GenTactics GenTacticsLf LockfreeGen.
+From LassoGen Require Import GenPrelude GenIR GenRequest GenIRLf GenTactics GenTacticsLf LockfreeGen.
 Open Scope N_scope.
 
 (* ---------------- accessors, constructor, setters ---------------- *)
@@ -18,8 +18,12 @@ Theorem gen_lf_get_max_memory_usage_eq : forall a s,
   /\ snd (run_lfun gen_lf_get_max_memory_usage a s []).
 Proof. gen_lf_tac. Qed.
 
-Theorem gen_lf_new_eq : forall cap lim,
-  fst (run_lnew gen_lf_new [cap; lim]) = Some (arena_new cap lim).
+(* AtomicBucket::with_capacity is used by specification (ab_wc_spec: a layout exists iff cap <= ab_cap_max) *)
+Theorem gen_lf_new_eq : forall cap lim, cap <= ab_cap_max ->
+  fst (run_lnew gen_lf_new [cap; lim]) = Some (Ok (arena_new cap lim)).
+Proof. gen_lf_tac. Qed.
+Theorem gen_lf_new_refuses : forall cap lim, ab_cap_max < cap ->
+  fst (run_lnew gen_lf_new [cap; lim]) = Some (Err FailedAllocation).
 Proof. gen_lf_tac. Qed.
 Theorem gen_lf_new_safe : forall cap lim, wc_pre cap ->
   snd (run_lnew gen_lf_new [cap; lim]).
@@ -49,22 +53,49 @@ Proof. gen_lf_tac. Qed.
 
 (* ---------------- store_str ---------------- *)
 
-Theorem gen_lf_store_str_eq : forall a s,
+Theorem gen_lf_store_str_eq_exact : forall a s,
+  (forall c d, lf_alloc_request a s = Some (c, d) -> c <= ab_cap_max) ->
   as_str_result (fst (run_lfun gen_lf_store_str a s [])) = Some (Arena.lf_store a s).
 Proof. gen_lf_tac. Qed.
 
-Theorem gen_lf_store_str_safe : forall a s, ArenaInv a -> lf_typed a -> store_dom a s ->
+Theorem gen_lf_store_str_eq : forall a s, 2 * bucket_cap a <= ab_cap_max -> slen s <= ab_cap_max ->
+  as_str_result (fst (run_lfun gen_lf_store_str a s [])) = Some (Arena.lf_store a s).
+Proof. gen_lf_tac. Qed.
+
+(* with_capacity refuses AFTER allocate_memory has booked the bytes (and set_bucket_capacity has doubled the capacity) *)
+Theorem gen_lf_store_str_failed_alloc_leaves_usage : forall a s c d,
+  lf_alloc_request a s = Some (c, d) -> ab_cap_max < c ->
+  as_str_result (fst (run_lfun gen_lf_store_str a s [])) = Some (after_failed_alloc a c d, Err FailedAllocation).
+Proof. gen_lf_tac. Qed.
+
+Theorem lf_alloc_request_spec : forall a s c d, lf_alloc_request a s = Some (c, d) ->
+  exists a' r, Arena.lf_store a s = (a', Ok r) /\ usage a' = usage a + c /\
+               bucket_cap a' = (if d then c else bucket_cap a) /\ next_bid a' = next_bid a + 1.
+Proof.
+  intros a s c d. unfold lf_alloc_request, lf_store, lf_store_gen.
+  destruct s as [|x s0]; [discriminate|]. set (s := x :: s0).
+  pose proof (grow_request_spec lf_place a s) as G.
+  destruct (lf_first_fit (blocks a) s) as [[bs r]|]; [discriminate|].
+  intros E. rewrite E in G. destruct G as (b & r & -> & _). eexists _, _. split; [reflexivity|]. cbn. auto.
+Qed.
+
+(* no condition on Layout sizes any more *)
+Theorem gen_lf_store_str_safe : forall a s, ArenaInv a -> arena_typed a -> store_dom a s ->
   snd (run_lfun gen_lf_store_str a s []).
 Proof. gen_lf_tac. Qed.
 
 Print Assumptions gen_lf_current_memory_usage_eq.
 Print Assumptions gen_lf_get_max_memory_usage_eq.
 Print Assumptions gen_lf_new_eq.
+Print Assumptions gen_lf_new_refuses.
 Print Assumptions gen_lf_new_safe.
 Print Assumptions gen_lf_set_max_memory_usage_eq.
 Print Assumptions gen_lf_set_bucket_capacity_eq.
 Print Assumptions gen_lf_set_bucket_capacity_safe.
 Print Assumptions gen_lf_allocate_memory_eq.
 Print Assumptions gen_lf_allocate_memory_safe.
+Print Assumptions gen_lf_store_str_eq_exact.
 Print Assumptions gen_lf_store_str_eq.
+Print Assumptions gen_lf_store_str_failed_alloc_leaves_usage.
+Print Assumptions lf_alloc_request_spec.
 Print Assumptions gen_lf_store_str_safe.
